@@ -39,6 +39,9 @@ def run(eng, rep) -> None:
     rep.rule("R11.5", "no flow from UnexpectedEOF.line/column into MetaData")
     rep.rule("R11.6", "library calls with a raising contract (frozen table) outside semantic actions are handled before a public entry")
     rep.rule("R11.7", "rendering is a function of the registered sources: the renderer keeps no cache that add_source does not invalidate")
+    rep.rule("R11.9", "a position taken from a lark exception that can be UnexpectedEOF is tested against its -1 sentinel (or the class is tested) before it is cited")
+    from .lints import lark_sentinel_position
+    lark_sentinel_position(eng, rep, "R11.9", ("fcp.parser", "fcp.error"))
     rep.rule("R11.8", "lark's own tree.meta (no file name) is read only where located meta-data is made from it")
     from .lints import raw_lark_meta
     raw_lark_meta(eng, rep, "R11.8", ("fcp.parser",))
